@@ -1,8 +1,13 @@
 #!/bin/sh
-# runs every claimed check once (tier = $1, default quick) on /repo and prints one line per check
+# runs every claimed check once (tier = $1, default quick; optional further arguments: the check ids to run, in order)
+# on the repository (VERIF_REPO, default /repo) and prints one line per check
 tier=${1:-quick}
+[ $# -gt 0 ] && shift
 cd "$(dirname "$0")"
-for id in $(python3 -c "import checks; print(' '.join(sorted(checks.CHECKS)))"); do
+mkdir -p .work
+ids="$*"
+[ -z "$ids" ] && ids=$(python3 -c "import checks; print(' '.join(sorted(checks.CHECKS)))")
+for id in $ids; do
   start=$(date +%s)
   ./check $id --tier $tier > .work/runall.$id.out 2>&1
   rc=$?
